@@ -158,6 +158,9 @@ func (r *run) progress() uint64 {
 	}
 	r.evmu.Unlock()
 	n += uint64(r.genSent.Load()) + uint64(r.faultHit.Load()) + uint64(r.ctxHit.Load())
+	for i := range r.moreHit {
+		n += uint64(r.moreHit[i].Load())
+	}
 	if r.redRet.Load() != 0 {
 		n++
 	}
